@@ -32,6 +32,7 @@ fn must_reject<P: G>(st: &RangeStatement<P>, bytes: &[u8], ctx: &Ctx, sub: &str,
     for mode in VMODES {
         let obs = verify_observed_one(st, &proof, ctx, mode);
         res.executions += 1;
+        res.validated += 1;
         *res.outcome_counter(&format!("verify:{}", obs.class())) += 1;
         if !obs.is_err() {
             res.violate(
@@ -142,6 +143,7 @@ fn triple_case<P: G>(cfg: Cfg, seeded: bool, tier: Tier) -> Box<dyn Case> {
             for mode in VMODES {
                 let obs = verify_observed_one(st, &proof, &ctx, mode);
                 res.executions += 1;
+                res.validated += 1;
                 *res.outcome_counter(&format!("statement-alteration:{}", obs.class())) += 1;
                 if expect_ok && !obs.is_ok() {
                     res.violate(format!("{}/{}", sub, mode_name(mode)), format!("allowed alteration ({}) was rejected: {}", sub, obs.describe()));
